@@ -207,3 +207,140 @@ Example C12_example :
 Proof.
   split; [exact ex_sorted_order|]. split; [exact ex_hosts_wf|]. split; [vm_compute; reflexivity|apply ex_bad_is_none].
 Qed.
+
+(* ====================================================================== *)
+(* configuration loaded from TEXT: C12 composed with C11 / C17 and C14      *)
+(* (lemmas: Config/ConfigText.v)                                            *)
+(* ====================================================================== *)
+(* Above, a configuration file is what the parsers make of it.  Here the file system holds TEXT
+   ([tfs]: a file is a list of Unicode scalar values, [None] = read_to_string fails), [parse_file]
+   is zone_from_file / hosts_from_file of fs.rs -- read_to_string, then Zone::deserialise (the model
+   of ZoneFile/ZoneFileModel.v, for any address codec [ip]; [zf_codec] is std's, Ip/IpModel.v) resp.
+   Hosts::deserialise (Hosts/HostsModel.v) -- and [load_text ip a t] = [load a (fs_of_text ip t)].
+   [tzone_seq a t] / [thosts_seq a t] are the effective file sequences (C12_dir_sorted_order); they do
+   not depend on the parsers.  [tfs_read t r] is the text behind a path. *)
+From RV Require Import Config.ConfigText.
+From RV Require Hosts.HostsModel Hosts.HostsSpec ZoneFile.ZoneFileModel ZoneFile.ZoneRtLines ZoneFile.ZoneParseDenotes
+     ZoneFile.ZfInstance ZoneFile.ZoneRtCodec.
+
+(* the premise [config_hosts_wf] of the theorems above is no assumption for configurations read from
+   text: every name Hosts::deserialise returns is a well-formed DomainName (an ASCII field read
+   relative to the root: C16_join) *)
+Theorem C12_text_hosts_names_wf :
+  (forall data h, HostsModel.deserialise data = Ok h ->
+     Forall wf_name (map fst (HostsModel.h_v4 h)) /\ Forall wf_name (map fst (HostsModel.h_v6 h)))
+  /\ (forall ip a t, config_hosts_wf a (fs_of_text ip t)).
+Proof. split; [exact HostsNames.deserialise_names_wf|exact text_config_hosts_wf]. Qed.
+Print Assumptions C12_text_hosts_names_wf.
+
+(* load_zone_configuration over texts never panics: each parser returns Ok or Err on EVERY text
+   (C17_parse_zone_total, C14_parse_hosts_total -- so the catch-all "unparsable" branch of parse_file
+   only ever stands for Err), and the loader returns on whatever they produce *)
+Theorem C12_load_text_total : forall ip a t,
+  (forall s, (exists z, ZoneFileModel.deserialise ip s = Ok z) \/ (exists e, ZoneFileModel.deserialise ip s = Err e))
+  /\ (forall s, (exists h, HostsModel.deserialise s = Ok h) \/ (exists e, HostsModel.deserialise s = Err e))
+  /\ exists o, load_res a (fs_of_text ip t) = Ok o.
+Proof. exact load_text_total. Qed.
+Print Assumptions C12_load_text_total.
+
+(* None iff a -Z / -A directory cannot be listed, or a file of the effective sequence cannot be
+   read, or its parser returns an error on its text; no premise *)
+Theorem C12_load_text_none_iff : forall ip a t,
+  load_text ip a t = None <->
+  (exists d, In d (a_zone_dirs a ++ a_hosts_dirs a) /\ alookup leqb d (tfs_dirs t) = None) \/
+  (exists r, In r (tzone_seq a t) /\
+             (tfs_read t r = None \/ exists s e, tfs_read t r = Some s /\ ZoneFileModel.deserialise ip s = Err e)) \/
+  (exists r, In r (thosts_seq a t) /\
+             (tfs_read t r = None \/ exists s e, tfs_read t r = Some s /\ HostsModel.deserialise s = Err e)).
+Proof. exact load_text_none_iff. Qed.
+Print Assumptions C12_load_text_none_iff.
+
+(* The composition.  Every zone file of the effective sequence is a rendering -- in ANY layout of the
+   layout family -- of an abstract zone file in the scope of C11_parse_denotes that denotes
+   (apex, SOA, insertions) ([zone_described]; [zdens] lists the denotations in application order);
+   every hosts file is the rendering of a hosts syntax tree with valid lines, the scope of
+   C14_hosts_parse_denotes ([hosts_described]; [hfiles]); every directory can be listed; the address
+   codec is round-trip ([codec_rt]: proved for std's, C12_load_text_denotes_zf).  Then:
+   - the configuration loads;
+   - [hfl], the hosts' share, is a flat zone without wildcard records holding exactly one A (AAAA)
+     record with TTL HOSTS_TTL per name that the LAST hosts file (in application order) defining it
+     for that family maps to an address ([merged_v4] / [merged_v6] of the files' DENOTATIONS);
+   - for every apex k the loaded zone represents (the relation of C02 / C12_answers_from_union) the
+     flat chain of the inputs with apex k: the flat zones [flat_of_ops apex so ops] of the zone files'
+     DENOTATIONS in application order, then, for the root, [hfl] (no SOA) LAST; an apex without input
+     has no zone;
+   - the inputs meet the side conditions of C12_merge_union / C12_merge_one_soa, which therefore say
+     what that chain holds: the union, duplicates removed, the SOA of the last file supplying one
+     (C12_load_text_records spells it out). *)
+Theorem C12_load_text_denotes : forall ip, ZoneRtLines.codec_rt ip -> forall a t zdens hfiles,
+  (forall d, In d (a_zone_dirs a ++ a_hosts_dirs a) -> alookup leqb d (tfs_dirs t) <> None) ->
+  Forall2 (fun r d => exists ls, tfs_read t r = Some (ZoneParseDenotes.render ls)
+                                 /\ ZoneParseDenotes.lines_ok ip ZoneParseDenotes.sp_init ls
+                                 /\ ZoneParseDenotes.denote ls = Some d) (tzone_seq a t) zdens ->
+  Forall2 (fun r hf => tfs_read t r = Some (HostsSpec.render hf)
+                       /\ Forall (fun le => HostsSpec.valid_line (fst le)) hf) (thosts_seq a t) hfiles ->
+  exists zs hfl,
+    load_text ip a t = Some zs
+    /\ (f_wild hfl = [] /\
+        forall p r, In (p, r) (f_norm hfl) <->
+          (exists n x, merged_v4 hfiles n = Some x /\ labels n = p ++ [[]] /\ r = rec_v4 x) \/
+          (exists n x, merged_v6 hfiles n = Some x /\ labels n = p ++ [[]] /\ r = rec_v6 x))
+    /\ Forall soa_ok (map snd (text_inputs zdens hfl))
+    /\ Forall (fun fa => NoDup (f_norm (fst fa)) /\ NoDup (f_wild (fst fa))) (map snd (text_inputs zdens hfl))
+    /\ forall k,
+         match alookup dname_eqb k zs, flat_chain (inputs_for k (text_inputs zdens hfl)) with
+         | Some m, Some fm => z_apex m = k /\ zrepr m fm
+         | None, None => inputs_for k (text_inputs zdens hfl) = []
+         | _, _ => False
+         end.
+Proof. exact load_text_denotes. Qed.
+Print Assumptions C12_load_text_denotes.
+
+(* ... with the content of the chain spelled out on the denotations: an ordinary record is in the
+   zone loaded for apex k iff some input with that apex denotes it -- except that an apex SOA record is
+   there only if no later input supplies a SOA; a wildcard record iff some input denotes it; nothing is
+   there twice; exactly one SOA record at the apex, that of the last input supplying one *)
+Theorem C12_load_text_records : forall ip, ZoneRtLines.codec_rt ip -> forall a t zdens hfiles,
+  (forall d, In d (a_zone_dirs a ++ a_hosts_dirs a) -> alookup leqb d (tfs_dirs t) <> None) ->
+  Forall2 (zone_described ip t) (tzone_seq a t) zdens ->
+  Forall2 (hosts_described t) (thosts_seq a t) hfiles ->
+  exists zs hfl,
+    load_text ip a t = Some zs /\ hosts_flat_denotes hfiles hfl /\
+    forall k m, alookup dname_eqb k zs = Some m ->
+      let l := inputs_for k (text_inputs zdens hfl) in
+      exists fm, z_apex m = k /\ zrepr m fm /\
+        (forall x, In x (f_norm fm) <-> exists pre fa post, l = pre ++ fa :: post /\ In x (f_norm (fst fa)) /\ survives x post) /\
+        (forall x, In x (f_wild fm) <-> exists fa, In fa l /\ In x (f_wild (fst fa))) /\
+        NoDup (f_norm fm) /\ NoDup (f_wild fm) /\
+        (forall r, (In ([], r) (f_norm fm) /\ zr_type r = RT_SOA) <-> exists so, last_defined snd l = Some so /\ r = soa_zrec so).
+Proof. exact load_text_records. Qed.
+Print Assumptions C12_load_text_records.
+
+(* for the codec the drivers run (std's address parsers as modelled in Ip/IpModel.v) nothing is assumed *)
+Theorem C12_load_text_denotes_zf : forall a t zdens hfiles,
+  (forall d, In d (a_zone_dirs a ++ a_hosts_dirs a) -> alookup leqb d (tfs_dirs t) <> None) ->
+  Forall2 (zone_described ZfInstance.zf_codec t) (tzone_seq a t) zdens ->
+  Forall2 (hosts_described t) (thosts_seq a t) hfiles ->
+  exists zs hfl,
+    load_text_zf a t = Some zs /\ hosts_flat_denotes hfiles hfl
+    /\ Forall soa_ok (map snd (text_inputs zdens hfl))
+    /\ Forall (fun fa => NoDup (f_norm (fst fa)) /\ NoDup (f_wild (fst fa))) (map snd (text_inputs zdens hfl))
+    /\ forall k,
+         match alookup dname_eqb k zs, flat_chain (inputs_for k (text_inputs zdens hfl)) with
+         | Some m, Some fm => z_apex m = k /\ zrepr m fm
+         | None, None => inputs_for k (text_inputs zdens hfl) = []
+         | _, _ => False
+         end.
+Proof. exact (load_text_denotes ZfInstance.zf_codec ZoneRtCodec.zf_codec_rt). Qed.
+Print Assumptions C12_load_text_denotes_zf.
+
+(* the hypotheses are satisfiable: the zone file "e. 5 IN A 1.2.3.4" (no SOA: apex = the root) and
+   the hosts file "1.2.3.4 h" load into ONE root zone answering for both names; with the zone file
+   replaced by "$INCLUDE x" (rejected by Zone::deserialise) nothing loads *)
+Example C12_text_example :
+  option_map (fun zs => option_map (fun z => (zone_resolve z ex_apex RT_A, zone_resolve z ex_host RT_A)) (alookup dname_eqb root_domain zs))
+             (load_text_zf ex_targs ex_tfs)
+  = Some (Some (Some (Ok (ZAnswer [{| rr_name := ex_apex; rr_type := RT_A; rr_class := RC_IN; rr_ttl := 5; rr_data := RD_A 16909060 |}])),
+                Some (Ok (ZAnswer [{| rr_name := ex_host; rr_type := RT_A; rr_class := RC_IN; rr_ttl := HOSTS_TTL; rr_data := RD_A 16909060 |}]))))
+  /\ load_text_zf ex_targs ex_tfs_bad = None /\ text_config_bad ZfInstance.zf_codec ex_targs ex_tfs_bad.
+Proof. split; [exact ex_text_loads|exact ex_text_bad]. Qed.
